@@ -77,7 +77,7 @@ func (s state) key() string {
 }
 
 func bulk(s string) string { return fmt.Sprintf("$%d\r\n%s\r\n", len(s), s) }
-func integer(n int) string  { return fmt.Sprintf(":%d\r\n", n) }
+func integer(n int) string { return fmt.Sprintf(":%d\r\n", n) }
 
 const nilReply = "$-1\r\n"
 
@@ -393,7 +393,9 @@ func apply(s0 state, a []string) (string, state) {
 type input struct{ argv []string }
 
 var model = porcupine.Model{
-	Init: func() interface{} { return state{map[string]string{}, map[string][]string{}, map[string]map[string]bool{}} },
+	Init: func() interface{} {
+		return state{map[string]string{}, map[string][]string{}, map[string]map[string]bool{}}
+	},
 	Step: func(st, in, out interface{}) (bool, interface{}) {
 		exp, ns := apply(st.(state), in.(input).argv)
 		got := out.(string)
